@@ -91,6 +91,7 @@ COST_SAMPLES = [
     ('caps_interval_data', 'caps_dict', dict(T=4, wacc=True)),
     ('mixed_discount_rates', 'mixed_wacc', dict(T=3, freq='d', unit='d')),
     ('windows', 'windows', dict(T=4)),
+    ('linked_plants', 'linked', dict(T=3)),
     ('storage_no_simult', 'contract_storage', dict(T=2, storage_kw=dict(no_simult_in_out=True))),
     ('storage_max_duration', 'contract_storage', dict(T=3, eff=None, storage_kw=dict(max_store_duration=2, costs=False))),
     ('scaled_take_month_grid', 'scaled', dict(T=3, base='take', gridv='month_d')),
@@ -98,7 +99,7 @@ COST_SAMPLES = [
     ('periodic_transport', 'periodic', dict(T=4, kind='transport', eff=0.5)),
     ('structured_two_internal', 'structured', dict(T=2, two_internal=True)),
 ]
-COST_QUICK = 18
+COST_QUICK = 19
 
 
 def run_costs(rec, seed, shape, kw):
@@ -253,7 +254,15 @@ def blocks(slp_lp, base_lp, T, boundary):
 
 def run_slp(rec, seed, shape, kw, boundary, S):
     def build(D):
-        return scenario(D, shape, kw, boundary, S)
+        r = scenario(D, shape, kw, boundary, S)
+        # the lower bound of the property fixes the present to a single-scenario solution (fix_time_window up to the boundary): the variables
+        # that get pinned must be exactly the present-stage decisions of the two-stage program
+        sh4 = shapes.build_portfolio(D, shape, **kw)
+        n4 = len(r[1].c)
+        xbar = common.sym_x(n4, 'xbar')
+        mask = np.array([t < boundary for t in range(sh4.tg.T)])
+        opf = sh4.portf.setup_optim_problem(sh4.prices, sh4.tg, fix_time_window={'I': mask, 'x': xbar}) if boundary > 0 else None
+        return r + (opf, xbar)
     res = lift.explore_build(build, level='A')
     rec.paths = len(res)
     validated = False
@@ -265,7 +274,7 @@ def run_slp(rec, seed, shape, kw, boundary, S):
                 continue
             common.crash_candidate(rec, P + '/crash', path, D, info=dict(kind='crash'))
             continue
-        sh, op_base, scen_ops, slp = path.result
+        sh, op_base, scen_ops, slp, opf, xbar = path.result
         B = lpsem.LP(op_base)
         SL = lpsem.LP(slp)
         Cs = [B] + [lpsem.LP(o) for o in scen_ops]           # scenario 0 = original prices
@@ -288,6 +297,21 @@ def run_slp(rec, seed, shape, kw, boundary, S):
         if not okp:
             rec.candidates.append(dict(name=P + '/present_common', env={}, info=dict(kind='present'), form='struct'))
             continue
+        if opf is not None:
+            Fx = lpsem.LP(opf)
+            goals = []
+            for i in range(B.n):
+                if bk[i][2] < boundary:
+                    goals.append(('pinned[%d]' % i, z3.And(Fx.l[i] == zl(xbar[i]), Fx.u[i] == zl(xbar[i])), dict(kind='fix_present', i=i, key=[str(v) for v in bk[i]])))
+                else:
+                    goals.append(('free[%d]' % i, z3.And(Fx.l[i] == B.l[i], Fx.u[i] == B.u[i]), dict(kind='fix_present', i=i, key=[str(v) for v in bk[i]])))
+            todo = [g for g in goals if not z3.is_true(z3.simplify(g[1]))]
+            nmf = P + '/fixing_the_present_pins_the_present_stage'
+            if not todo:
+                rec.obligations.append(dict(name=nmf, verdict='unsat', secs=0, form='Q2'))
+                rec.distinct.add(nmf)
+            else:
+                rec.prove_each(nmf, base, todo, form='Q2')
         covered = set()
         for m in maps:
             covered |= set(m.values())
@@ -344,6 +368,15 @@ def observe(case, kwargs, env, rq):
     D = lift.Domain(theta=env)
     sh, op_base, scen_ops, slp = scenario(D, kw['shape'], kw['kw'], kw['boundary'], kw['S'])
     o = dict(slp=obs.problem_obs(slp))
+    if rq.get('kind') == 'replay' and rq.get('info', {}).get('kind') == 'fix_present':
+        i = rq['info']['i']
+        sh4 = shapes.build_portfolio(D, kw['shape'], **kw['kw'])
+        n4 = len(op_base.c)
+        xbar = np.array([float(env.get('xbar%d' % k, 0.25 + k)) for k in range(n4)])
+        mask = np.array([t < kw['boundary'] for t in range(sh4.tg.T)])
+        opf = sh4.portf.setup_optim_problem(sh4.prices, sh4.tg, fix_time_window={'I': mask, 'x': xbar.copy()})
+        o['fix_present'] = dict(i=i, l=float(opf.l[i]), u=float(opf.u[i]), xbar=float(xbar[i]), base_l=float(op_base.l[i]), base_u=float(op_base.u[i]))
+        return o
     if rq.get('kind') == 'replay':
         # real optimisation: SLP optimum vs the bounds of the property
         vs, ss = embed_lp.optimum(slp)
@@ -414,6 +447,16 @@ def judge(case, kwargs, cand, ans):
         from . import c03
         return c03.judge_robust(case, kwargs, cand, ans)
     o = ans['obs']
+    if info.get('kind') == 'fix_present':
+        f = o['fix_present']
+        pinned = abs(f['l'] - f['xbar']) < 1e-9 and abs(f['u'] - f['xbar']) < 1e-9
+        free = abs(f['l'] - f['base_l']) < 1e-9 and abs(f['u'] - f['base_u']) < 1e-9
+        present = int(info['key'][2]) < kwargs['boundary']
+        if present and not pinned:
+            return True, 'variable %s %s belongs to the present stage but fixing the present leaves it free: bounds [%g, %g], value to fix %g' % (f['i'], info['key'], f['l'], f['u'], f['xbar'])
+        if not present and not free:
+            return True, 'variable %s %s belongs to the future but fixing the present changes its bounds to [%g, %g]' % (f['i'], info['key'], f['l'], f['u'])
+        return False, 'fixing the present pins exactly the present stage on the unshimmed code'
     if kwargs.get('kind') == 'costs':
         a, b = o['sample'], o['c']
         if len(a) != len(b):
